@@ -420,7 +420,12 @@ def oracle_c06(inst, o, well_posed):
 
 
 def oracle_c07(inst, o, targets):
-    """growth stops right after the first unit that makes the object's added mass exceed the target"""
+    """growth stops right after the first unit that makes the object's added mass exceed the target.
+
+    The residues of an object appear in creation order: [start end group] growth units ... capping end groups.
+    There must be a split g >= 1 such that the first g residues are growth units (repeat units; end groups only when a
+    transition list can select them), everything after is a capping end group, the mass before the g-th unit did not
+    exceed the target, and the mass after it does (or no descriptor was left open)."""
     out = []
     if o.exc is not None or not o.blocks:
         return out
@@ -435,26 +440,44 @@ def oracle_c07(inst, o, targets):
         if t is None:
             continue
         has_trans = any(d.transitions is not None for tt in e["rep"] + e["end"] for d in R.token_ref(tt).descs) or R.terminal_ref(e["left"]).transitions is not None
-        if has_trans:
-            continue  # end groups may be growth units here; decided through the outcome distribution (C08 model)
-        units = [R.token_ref(text).mass for (text, _, _, _), x in zip(o.blocks, els) if x == ei and text in e["rep"]]
-        n = len(units)
-        if n < 1:
+        idx = [k for k, x in enumerate(els) if x == ei]
+        if not idx:
             out.append(("C07", "no-unit", f"object {ei} added no unit for target {t}"))
             continue
-        before = sum(units[:-1])
-        total = sum(units)
-        # does any descriptor of this object's residues remain that could have grown? -> decided by the model; here:
-        # growth continued past unit n-1 only if mass did not exceed t
-        if n > 1 and before > t + 1e-9:
-            out.append(("C07", "grew-past-target", f"object {ei}: {n} units, mass {before:.4f} after {n - 1} units already exceeded the target {t:.4f}"))
-        if total <= t - 1e-9:
-            # allowed only if no descriptor was open right after the last unit (premature end)
-            last = max(k for k, ((text, _, _, _), x) in enumerate(zip(o.blocks, els)) if x == ei and text in e["rep"])
+        if R.terminal_ref(e["left"]).symbol == "" and idx[0] == 0:
+            idx = idx[1:]  # the starting end group does not count
+        texts = [o.blocks[k][0] for k in idx]
+        masses = [R.token_ref(x).mass for x in texts]
+        n = len(idx)
+        if n < 1 or not any(x in e["rep"] for x in texts):
+            out.append(("C07", "no-unit", f"object {ei} added no repeat unit for target {t}"))
+            continue
+        cum = [0.0]
+        for m in masses:
+            cum.append(cum[-1] + m)
+
+        def open_after(g):
+            last = idx[g - 1]
             ndesc = sum(len(R.token_ref(o.blocks[k][0]).descs) for k in range(last + 1))
             nb = sum(1 for (a, _, b, _, _) in o.xbonds if a <= last and b <= last)
-            if ndesc - 2 * nb > 0:
-                out.append(("C07", "stopped-early", f"object {ei}: stopped after {n} units with mass {total:.4f} <= target {t:.4f} although {ndesc - 2 * nb} descriptors were open"))
+            return ndesc - 2 * nb
+
+        verdicts = []
+        ok = False
+        for g in range(1, n + 1):
+            if not all(x in e["end"] and x not in e["rep"] for x in texts[g:]):
+                continue
+            if not has_trans and not all(x in e["rep"] for x in texts[:g]):
+                continue
+            cont_ok = g == 1 or cum[g - 1] <= t + 1e-9
+            stop_ok = cum[g] > t - 1e-9 or open_after(g) == 0
+            if cont_ok and stop_ok:
+                ok = True
+                break
+            verdicts.append("grew-past-target" if not cont_ok else "stopped-early")
+        if not ok:
+            code = verdicts[-1] if verdicts else "growth-after-capping"
+            out.append(("C07", code, f"object {ei}: units {texts} with cumulative masses {[round(c, 3) for c in cum[1:]]} cannot be explained by growth up to the first unit exceeding the target {t:.4f}"))
     return out
 
 
@@ -537,6 +560,8 @@ def run_instance(inst, max_exec=200000, bound=None, want=("C04", "C05", "C06", "
             per += oracle_c04(inst, o)
         if "C05" in want:
             per += oracle_c05(inst, o)
+            if o.exc is not None and wp and any(k in o.exc for k in ("Valence", "valence", "Kekul", "Sanit", "Range Error", "Invariant", "Pre-condition", "ArgumentError")):
+                per.append(("C05", "sanitize-raises", f"generation of a well-posed molecule fails inside the chemistry toolkit: {o.exc}"))
         if "C06" in want:
             per += oracle_c06(inst, o, bool(wp))
         if "C07" in want:
